@@ -29,7 +29,8 @@ import warnings
 
 VERIF = os.path.dirname(os.path.dirname(os.path.abspath(__file__)))
 REPO = os.environ.get('COPULAS_REPO', '/repo')
-CASE_TIMEOUT = int(os.environ.get('VERIF_CASE_TIMEOUT', '240'))
+CASE_TIMEOUT = int(os.environ.get('VERIF_CASE_TIMEOUT', '0'))      # 0 = tier default: quick 240 s, thorough 1800 s
+_TIMEOUT = [CASE_TIMEOUT or 240]
 
 
 class HarnessError(Exception):
@@ -135,8 +136,12 @@ def jsonable(o, depth=0):
 _MOD = None
 
 
+class CaseTimeout(BaseException):
+    """Raised by the per-case alarm. A BaseException, so that no `except Exception` in a check can swallow it."""
+
+
 def _alarm(signum, frame):
-    raise TimeoutError('case exceeded VERIF_CASE_TIMEOUT')
+    raise CaseTimeout('case exceeded VERIF_CASE_TIMEOUT')
 
 
 def _worker_init(modname):
@@ -150,7 +155,7 @@ def _worker_init(modname):
 
 def _run_one(case):
     import numpy as np
-    signal.alarm(CASE_TIMEOUT)
+    signal.alarm(_TIMEOUT[0])
     try:
         np.random.seed(12345)
         res = _MOD.run_case(case)
@@ -158,6 +163,10 @@ def _run_one(case):
             raise HarnessError('run_case must return a Result')
     except HarnessError:
         raise
+    except CaseTimeout as exc:
+        res = Result()
+        res.ev()
+        res.violation(f'{_MOD.PROPERTY}:case-timeout', f'case did not finish within {_TIMEOUT[0]} s: {exc}', case=case)
     except Exception as exc:  # the harness itself must not crash: an unexpected exception is a finding
         res = Result()
         res.ev()
@@ -252,7 +261,7 @@ def confirm_in_fresh_process(prop, path, sig):
     """Replay one violating case in a fresh interpreter: the same signature must come back."""
     env = dict(os.environ)
     out = subprocess.run([os.path.join(VERIF, 'check'), prop, '--replay', path],
-                         capture_output=True, text=True, env=env, timeout=CASE_TIMEOUT + 120)
+                         capture_output=True, text=True, env=env, timeout=_TIMEOUT[0] + 120)
     return out.returncode == 1 and f'sig={sig}' in out.stdout, out.stdout[-2000:] + out.stderr[-2000:]
 
 
@@ -275,6 +284,7 @@ def run_check(modname, tier, seed, replay=None):
         return 1 if hit else 0
 
     cases = mod.cases(tier, seed)
+    _TIMEOUT[0] = CASE_TIMEOUT or (240 if tier == 'quick' else 1800)
     agg = execute(modname, cases)
     agg['tier'] = tier
     agg['seed'] = seed
